@@ -155,6 +155,19 @@ impl World {
                         lines.push(format!("C {}", p));
                     }
                 }
+                Stmt::IfExists(p) => {
+                    let abs = join_norm(&cwd, p).ok_or(EvalErr::Fail(1))?;
+                    if self.exists(&abs) {
+                        match self.eval_in(&abs, memo, stack) {
+                            Ok(Built::Bytes(c)) => lines.push(dep_line('D', p, Some(&c))),
+                            Ok(Built::Absent) => lines.push(dep_line('D', p, None)),
+                            Err(EvalErr::Cycle) => return Err(EvalErr::Cycle),
+                            Err(_) => return Err(EvalErr::Fail(1)),
+                        }
+                    } else {
+                        lines.push(format!("C {}", p));
+                    }
+                }
                 Stmt::Always => lines.push("A".to_string()),
                 Stmt::Redo(ps) => {
                     for p in ps {
@@ -261,6 +274,7 @@ impl World {
                             add(even, &cwd);
                             add(odd, &cwd);
                         }
+                        Stmt::IfExists(p) => add(p, &cwd),
                         Stmt::Chdir(d) => {
                             if let Some(n) = join_norm(&cwd, d) {
                                 cwd = n;
